@@ -406,7 +406,7 @@ func build(r *rt.Run) (scs []scenario, exhaustive bool, extra map[string]any) {
 	if !r.Thorough() {
 		for _, c := range joinCfgs("stream", 2) {
 			allFor(c, 2, 0)
-			onFor(c, 2, 12)
+			onFor(c, 2, 16)
 		}
 		onLong(Cfg{Kind: "join", Edge: "stream", N: 2, Fill: "null", Tol: 0}, 20)
 		onLong(Cfg{Kind: "join", Edge: "stream", N: 2, Fill: "none", Tol: 2}, 20)
